@@ -180,16 +180,18 @@ def dedupe_by_src(cases, merge_key=None):
 
 @check("C02")
 def c02(ck):
-    ck.rule = ("every history of MaxLen collection-producing operations (21 sequence ops incl. conj concat subvec "
-               "rest vec seq take/drop assoc with-meta quasiquote-splice apply map update; 15 map ops) applied to "
+    ck.rule = ("every history of MaxLen collection-producing operations (27 sequence ops incl. conj concat subvec "
+               "rest vec seq take/drop assoc with-meta quasiquote-splice apply map update, empty-prefix concat, rest-parameter "
+               "closures under map/apply; length-3 histories over the 17 that share or append; 15 map ops) applied to "
                "values produced earlier in the history, explored by TLC on an implementation-shaped model of Go "
                "slices (heap of backing arrays, in-place append when len<cap); every history is replayed for every "
                "construction path of the seed (realising different spare capacities), via text and via AST, "
                "re-reading every earlier binding after every step; distinct = distinct histories")
     q = ck.quick
     total_danger = 0
-    for fam, ml in (("seq", 2 if q else 3), ("map", 2 if q else 3)):
-        consts = {"MaxLen": ml, "Family": '"%s"' % fam}
+    runs = (("seq", 2, "FALSE"), ("map", 2, "FALSE")) if q else (("seq", 2, "FALSE"), ("seq", 3, "TRUE"), ("map", 3, "FALSE"))
+    for fam, ml, core in runs:
+        consts = {"MaxLen": ml, "Family": '"%s"' % fam, "CoreOnly": core}
         r = ck.tlc("GenC02", cfg(constants=consts), timeout=1500)
         ck.tlc_ok(r, "GenC02")
         cases = dedupe_by_src(r.cases, "danger")
@@ -199,7 +201,7 @@ def c02(ck):
             for i, c in enumerate(cases):
                 c["seeds"] = c["seeds"][i % 3::3]
         ck.replay(cases)
-        ck.extra.setdefault("bounds", {})[fam] = consts
+        ck.extra.setdefault("bounds", {})["%s-%d" % (fam, ml)] = consts
     ck.extra["model_dangerous_histories"] = total_danger
     # values held by closures, atoms and rest-parameter lists (GenC02b), from forms and from text
     rb = ck.tlc("GenC02b", cfg(), timeout=600)
